@@ -27,3 +27,30 @@ Definition bshow (c : bytes_case) :=
   let '(min, idxs, bs, outs, snaps) := c in
   let '(l, os) := AslLine.lrun usd_sem usd_delay (mkL min (map usd_init idxs) finit) bs in
   (os, l_drv l).
+
+(* messages one after the other on the same line: per message its bytes, the outcome of each
+   parse(byte) and the snapshots of ALL units after it *)
+Definition chunk := (list Z * list AslLine.outcome * list usd)%type.
+Definition chunk_case := (Z * list Z * list chunk)%type.
+
+Fixpoint chunks_ok (l : AslLine.line) (cs : list chunk) : bool :=
+  match cs with
+  | [] => true
+  | (bs, outs, snaps) :: cs' =>
+      let '(l1, os) := AslLine.lrun usd_sem usd_delay l bs in
+      list_eqb aout_eqb os outs && list_eqb usd_eqb (l_drv l1) snaps && chunks_ok l1 cs'
+  end.
+
+Definition cok (c : chunk_case) : bool :=
+  let '(min, idxs, cs) := c in chunks_ok (mkL min (map usd_init idxs) finit) cs.
+
+Fixpoint chunks_first_diff (i : nat) (l : AslLine.line) (cs : list chunk) :=
+  match cs with
+  | [] => None
+  | (bs, outs, snaps) :: cs' =>
+      let '(l1, os) := AslLine.lrun usd_sem usd_delay l bs in
+      if list_eqb aout_eqb os outs && list_eqb usd_eqb (l_drv l1) snaps
+      then chunks_first_diff (S i) l1 cs' else Some (i, os, l_drv l1)
+  end.
+Definition cshow (c : chunk_case) :=
+  let '(min, idxs, cs) := c in chunks_first_diff 0 (mkL min (map usd_init idxs) finit) cs.
